@@ -373,7 +373,7 @@ def oracle_factory(ctx):
 
 
 def campaign_shapes(ctx):
-    ctx.search(cases(), oracle_factory(ctx), ctx.budget(8000, 400000))
+    ctx.search(cases(), oracle_factory(ctx), ctx.budget(24000, 400000))
 campaign_shapes.shards = (6, 16)
 
 
